@@ -227,17 +227,25 @@ Definition iter_expr : str :=   (* options.items() *)
 Definition sav_expr : str :=    (* value | to_static_assertion_value *)
   [118; 97; 108; 117; 101; 32; 124; 32; 116; 111; 95; 115; 116; 97; 116; 105; 99; 95; 97; 115; 115; 101; 114; 116; 105; 111; 110; 95; 118; 97; 108; 117; 101].
 
-(* Expressions that may be interpolated into a C/C++ string literal without being able to end it or to
-   start an escape sequence: the DSDL source file name / path and the option KEY (identifiers).  An option
-   VALUE is not literal-safe: documented values contain double quotes (quoted include paths) and free text
-   may contain backslashes. *)
+(* Expressions that may be interpolated into a C/C++ string literal without being able to end it or to start an
+   escape sequence: the DSDL file NAME (pydsdl restricts it to <identifier>.<n>.<n>.dsdl), the option KEY, and the
+   DSDL file PATH once backslashes and double quotes are escaped:
+     (T.source_file_path.as_posix() | replace("\\", "\\\\") | replace('"', '\\"')) if nunavut.embed_auditing_info else T.source_file_path.name
+   An option VALUE is never literal-safe (documented values contain double quotes). *)
 Definition safe_msg_exprs : list str :=
-  [ [84; 46; 115; 111; 117; 114; 99; 101; 95; 102; 105; 108; 101; 95; 112; 97; 116; 104; 46; 97; 115; 95; 112; 111; 115; 105; 120; 40; 41; 32; 105; 102; 32; 110; 117; 110; 97; 118; 117; 116; 46; 101; 109; 98; 101; 100; 95; 97; 117; 100; 105; 116; 105; 110; 103; 95; 105; 110; 102; 111; 32; 101; 108; 115; 101; 32; 84; 46; 115; 111; 117; 114; 99; 101; 95; 102; 105; 108; 101; 95; 112; 97; 116; 104; 46; 110; 97; 109; 101] (* T.source_file_path.as_posix() if nunavut.embed_auditing_info else T.source_file_path.name *);
-    [84; 46; 115; 111; 117; 114; 99; 101; 95; 102; 105; 108; 101; 95; 112; 97; 116; 104; 46; 110; 97; 109; 101] (* T.source_file_path.name *);
-    [84; 46; 115; 111; 117; 114; 99; 101; 95; 102; 105; 108; 101; 95; 112; 97; 116; 104; 46; 97; 115; 95; 112; 111; 115; 105; 120; 40; 41] (* T.source_file_path.as_posix() *);
-    [107; 101; 121] (* key *);
-    [107; 101; 121; 32; 124; 32; 105; 100] (* key | id *) ].
-Definition msg_literal_safe (sd : side) : bool := forallb (fun e => str_in e safe_msg_exprs) (sd_msg_exprs sd).
+  [ [40; 84; 46; 115; 111; 117; 114; 99; 101; 95; 102; 105; 108; 101; 95; 112; 97; 116; 104; 46; 97; 115; 95; 112; 111; 115; 105; 120; 40; 41; 32; 124; 32; 114; 101; 112; 108; 97; 99; 101; 40; 34; 92; 92; 34; 44; 32; 34; 92; 92; 92; 92; 34; 41; 32; 124; 32; 114; 101; 112; 108; 97; 99; 101; 40; 39; 34; 39; 44; 32; 39; 92; 92; 34; 39; 41; 41; 32; 105; 102; 32; 110; 117; 110; 97; 118; 117; 116; 46; 101; 109; 98; 101; 100; 95; 97; 117; 100; 105; 116; 105; 110; 103; 95; 105; 110; 102; 111; 32; 101; 108; 115; 101; 32; 84; 46; 115; 111; 117; 114; 99; 101; 95; 102; 105; 108; 101; 95; 112; 97; 116; 104; 46; 110; 97; 109; 101];
+    [84; 46; 115; 111; 117; 114; 99; 101; 95; 102; 105; 108; 101; 95; 112; 97; 116; 104; 46; 110; 97; 109; 101];
+    [107; 101; 121];
+    [107; 101; 121; 32; 124; 32; 105; 100] ].
+(* The raw PATH is not literal-safe: a directory name may contain a double quote or a backslash (finding
+   F-OPTGUARD-MSG-PATH: with --embed-auditing-info such a path ends the literal and identical option sets do not
+   build).  Tolerated by sides_agree (a hostile path, not an option, triggers it) but tracked: msg_path_escaped. *)
+Definition raw_path_msg_exprs : list str :=
+  [ [84; 46; 115; 111; 117; 114; 99; 101; 95; 102; 105; 108; 101; 95; 112; 97; 116; 104; 46; 97; 115; 95; 112; 111; 115; 105; 120; 40; 41; 32; 105; 102; 32; 110; 117; 110; 97; 118; 117; 116; 46; 101; 109; 98; 101; 100; 95; 97; 117; 100; 105; 116; 105; 110; 103; 95; 105; 110; 102; 111; 32; 101; 108; 115; 101; 32; 84; 46; 115; 111; 117; 114; 99; 101; 95; 102; 105; 108; 101; 95; 112; 97; 116; 104; 46; 110; 97; 109; 101];
+    [84; 46; 115; 111; 117; 114; 99; 101; 95; 102; 105; 108; 101; 95; 112; 97; 116; 104; 46; 97; 115; 95; 112; 111; 115; 105; 120; 40; 41] ].
+Definition msg_literal_safe (sd : side) : bool :=
+  forallb (fun e => str_in e safe_msg_exprs || str_in e raw_path_msg_exprs) (sd_msg_exprs sd).
+Definition msg_path_escaped (sd : side) : bool := forallb (fun e => str_in e safe_msg_exprs) (sd_msg_exprs sd).
 
 Definition sides_agree (sup typ : side) : bool :=
   side_live typ && side_live sup && msg_literal_safe typ && msg_literal_safe sup &&
